@@ -9,6 +9,7 @@ import (
 )
 
 func (vc *FuncVC) execBlock(b *ssa.BasicBlock) {
+	vc.curBlock = b
 	st := vc.out[b]
 	reach := vc.reach[b]
 	for _, ins := range b.Instrs {
@@ -18,11 +19,11 @@ func (vc *FuncVC) execBlock(b *ssa.BasicBlock) {
 		case *ssa.DebugRef:
 			if !ins.IsAddr && ins.Object() != nil {
 				if v, ok := vc.vals[ins.X]; ok && v.Kind == vScalar {
-					vc.debugVals[ins.Object().Name()] = vc.toSVal(v, ins.X.Type())
+					vc.bind(ins.Object().Name(), b, vc.toSVal(v, ins.X.Type()))
 				} else if c, ok := ins.X.(*ssa.Const); ok {
 					cv := vc.constVal(c)
 					if cv.Kind == vScalar {
-						vc.debugVals[ins.Object().Name()] = vc.toSVal(cv, ins.X.Type())
+						vc.bind(ins.Object().Name(), b, vc.toSVal(cv, ins.X.Type()))
 					}
 				}
 			}
@@ -142,6 +143,7 @@ func (vc *FuncVC) execAlloc(st *State, ins *ssa.Alloc) {
 	if ins.Comment != "" {
 		if _, dup := vc.allocs[ins.Comment]; !dup {
 			vc.allocs[ins.Comment] = vc.vals[ins]
+			vc.defBlock["&"+ins.Comment] = ins.Block()
 		}
 	}
 }
